@@ -54,8 +54,8 @@ PROPS['C12'] = dict(
     kani=[dict(crate='float_lemmas', harnesses=['norm_quotient', 'unit_quotient'],
                domain='0 <= n <= m, 1 <= m < 2^32 (complete over this domain: loop-free, fully symbolic)')],
     input_search=True,
-    claim='edit::_calculate_edit_matrices: every cell of d equals the reference recurrence dist (insert, delete, keep/replace, adjacent transposition; whitespace never substituted or transposed under spaces_insert_delete_only) and every cell of ops is an optimal admissible predecessor, for all four flag combinations; operations(): script length == dist, positions sorted, panic arm unreachable, terminates; distance(): numerator == dist, denominator 1 or the longer length (>= 1: the quotient is always defined), 0 for equal strings, numerator <= denominator when normalised without spaces_insert_delete_only; prefix_distance(): numerator == min over prefixes of b. Float values: Kani lemma norm_quotient ((n as f64)/(m as f64) finite, in [0,1], 0 iff n == 0 for n <= m < 2^32).',
-    not_covered=['applying the script to a yields b (path semantics of the script) is checked only by the probe, not proved', 'edit::distances (zip/map closure)', 'normalised prefix_distance with an empty `a` (0/0) is outside the statement'],
+    claim='edit::_calculate_edit_matrices: every cell of d equals the reference recurrence dist (insert, delete, keep/replace, adjacent transposition; whitespace never substituted or transposed under spaces_insert_delete_only) and every cell of ops is an optimal admissible predecessor, for all four flag combinations; operations(): script length == dist, positions sorted, applying the script to a yields b (apply_script: copy / insert b[j] / delete a[i] / replace by b[j] / swap a[i],a[i+1]), panic arm unreachable, terminates; distance(): numerator == dist, denominator 1 or the longer length (>= 1: the quotient is always defined), 0 for equal strings, numerator <= denominator when normalised without spaces_insert_delete_only; prefix_distance(): numerator == min over prefixes of b. Float values: Kani lemma norm_quotient ((n as f64)/(m as f64) finite, in [0,1], 0 iff n == 0 for n <= m < 2^32).',
+    not_covered=['edit::distances (zip/map closure)', 'normalised prefix_distance with an empty `a` (0/0) is outside the statement'],
     assumptions=['CharString::new/chars/len', 'std min_by returns the first minimum', 'f64 casts and division are IEEE (the ghost integer view of floats: vt_f64 / vt_fdiv)'],
     domain=['(|a|+1) * (|b|+1) <= usize::MAX'],
 )
